@@ -5,6 +5,7 @@ to TLC); every map is verified by the specification (IsoVia), a wrong hint can o
 import base64
 
 import cellkit as ck
+from vlib import user_stack
 from pytoniq_core.boc import Builder, Cell, Slice
 
 
@@ -100,7 +101,8 @@ OPTION_SETS = [dict(idx=0, crc=0, cache=0), dict(idx=1, crc=0, cache=0), dict(id
 
 
 def emit(root, o):
-    return root.to_boc(has_idx=bool(o['idx']), hash_crc32=bool(o['crc']), has_cache_bits=bool(o['cache']))
+    with user_stack():
+        return root.to_boc(has_idx=bool(o['idx']), hash_crc32=bool(o['crc']), has_cache_bits=bool(o['cache']))
 
 
 def emit_with_hashes(root, which):
@@ -170,14 +172,15 @@ def encode_forms(data, form):
 
 def parse_entry(entry, payload):
     """-> list of root-like objects as (bits, refs, type) triples turned into projectable pseudo cells"""
-    if entry == 'cell':
-        return [Cell.one_from_boc(payload)]
-    if entry == 'cells':
-        return Cell.from_boc(payload)
-    if entry == 'slice':
-        return [Slice.one_from_boc(payload)]
-    if entry == 'builder':
-        return [Builder.one_from_boc(payload)]
+    with user_stack():
+        if entry == 'cell':
+            return [Cell.one_from_boc(payload)]
+        if entry == 'cells':
+            return Cell.from_boc(payload)
+        if entry == 'slice':
+            return [Slice.one_from_boc(payload)]
+        if entry == 'builder':
+            return [Builder.one_from_boc(payload)]
     raise ValueError(entry)
 
 
